@@ -16,6 +16,7 @@
   as the invariant (`program` at the bottom and nowhere else) and reads the statement context off it.
 -/
 import TshVerif.Lemmas.ParserPlacedProg
+import TshVerif.Lemmas.ParserUseProg
 import TshVerif.Props.C06Sem
 import TshVerif.Lemmas.BatchTotal
 namespace Tsh.C07
@@ -122,6 +123,93 @@ theorem accepted_programs_translate_for_both_targets (fs : FileSys) (main : Stri
   obtain ⟨l2, h2⟩ := Batch.compile_total p.body ht hp
   exact ⟨⟨_, by unfold Bash.emitBash; rw [h1]⟩, ⟨_, by unfold Batch.emitBatch; rw [h2]⟩⟩
 
+/-! ### names resolve lexically: every variable used is a visible one
+
+`PT.useSs Γ ss` (Model/PTyped.lean): walking the statements in order with the list `Γ` of the variables visible so far -
+a definition adds its variables for the statements after it in the same list, a block's definitions end with the block, a
+function body starts again from the globals and the parameters, a loop header's variables are visible in the condition, the
+step and the body - every variable that is read, assigned, element-assigned, copied into or counted up or down is a member
+of `Γ`, as the very `Var` (stored name, type, global flag) that was introduced.  So no accepted program uses a variable
+before its definition, after the end of its block, from the caller's locals, or with another type than it was introduced
+with.  (The only-if half of "usable exactly from its definition to the end of its block"; the if half - everything in scope
+is accepted - is measured by the scope generator of the check.) -/
+
+/-- unused-function removal keeps the fact: a function definition introduces no variable -/
+theorem useSs_filter (keep : Stmt → Bool) (hk : ∀ st, keep st = false → ∀ Γ, PT.declared Γ st = Γ) :
+    ∀ (ss : List Stmt) (Γ : List Var), PT.useSs Γ ss = true → PT.useSs Γ (ss.filter keep) = true
+  | [], _, _ => rfl
+  | st :: rest, Γ, h => by
+      simp only [PT.useSs, Bool.and_eq_true] at h
+      cases hks : keep st with
+      | true =>
+        simp only [List.filter_cons, hks, if_true, PT.useSs, Bool.and_eq_true]
+        exact ⟨h.1, useSs_filter keep hk rest _ h.2⟩
+      | false =>
+        simp only [List.filter_cons, hks, Bool.false_eq_true, if_false]
+        exact useSs_filter keep hk rest Γ (hk st hks Γ ▸ h.2)
+
+theorem declaredAll_filter (keep : Stmt → Bool) (hk : ∀ st, keep st = false → ∀ Γ, PT.declared Γ st = Γ) :
+    ∀ (ss : List Stmt) (Γ : List Var), PT.declaredAll Γ (ss.filter keep) = PT.declaredAll Γ ss
+  | [], _ => rfl
+  | st :: rest, Γ => by
+      cases hks : keep st with
+      | true =>
+        simp only [List.filter_cons, hks, if_true, PT.declaredAll, List.foldl_cons]
+        exact declaredAll_filter keep hk rest _
+      | false =>
+        simp only [List.filter_cons, hks, Bool.false_eq_true, if_false, PT.declaredAll, List.foldl_cons]
+        rw [hk st hks Γ]
+        exact declaredAll_filter keep hk rest _
+
+/-- **Every variable an accepted program uses is visible where it is used** - in the file's own statements, with the
+    imported statements in front of them as the outermost definitions (an imported file's own statements: next theorem). -/
+theorem accepted_programs_use_visible_variables (fs : FileSys) (main : String) (p : Parsed) (s : PSt)
+    (h : Parser.parse fs main = .ok p s) :
+    ∃ imported own, p.body = imported ++ own ∧ PT.useSs (PT.declaredAll [] imported) own = true := by
+  obtain ⟨raw, hraw, hcl⟩ := parse_eq_clean h
+  have hr : ∃ imported own, raw.body = imported ++ own ∧ PT.useSs (PT.declaredAll [] imported) own = true := by
+    unfold parseRaw at hraw
+    split at hraw
+    · simp at hraw
+    · split at hraw
+      · simp at hraw
+      · split at hraw
+        · simp at hraw
+        · dsimp only at hraw
+          split at hraw
+          · rename_i body s1 he
+            simp only [PRes.ok.injEq] at hraw
+            obtain ⟨rfl, _⟩ := hraw
+            exact evalProgram_use _ _ _ _ _ _ _ _ he
+          · simp at hraw
+          · simp at hraw
+          · simp at hraw
+  obtain ⟨imported, own, hb, hu⟩ := hr
+  unfold cleanProgram at hcl
+  cases hk : getUsedFuncs raw.usedFuncs "" with
+  | none => simp [hk] at hcl
+  | some keep =>
+    simp only [hk, Option.bind_eq_bind, Option.bind_some, Option.pure_def, Option.some.injEq] at hcl
+    have key : ∀ (kf : Stmt → Bool), (∀ st, kf st = false → ∀ Γ, PT.declared Γ st = Γ) →
+        PT.useSs (PT.declaredAll [] (imported.filter kf)) (own.filter kf) = true := fun kf hkf => by
+      rw [declaredAll_filter kf hkf]; exact useSs_filter kf hkf own _ hu
+    refine ⟨_, _, by rw [← hcl, hb, List.filter_append], ?_⟩
+    apply key
+    intro st hst Γ
+    cases st <;> simp_all [PT.declared]
+
+/-- the same for every file that is parsed on the way (imported files, at any nesting): its own statements use visible
+    variables only -/
+theorem parsed_files_use_visible_variables (depth : Nat) (fs : FileSys) (path : String) (importing : List String) (fuel : Nat)
+    (s0 s' : PSt) (body : List Stmt) (h : evalProgram depth fs path importing fuel s0 = .ok body s') :
+    ∃ imported own, body = imported ++ own ∧ PT.useSs (PT.declaredAll [] imported) own = true :=
+  evalProgram_use depth fs path importing fuel s0 s' body h
+
+/-- … and for every statement the statement parser returns, in any context whose variables are in `Γ` -/
+theorem parsed_statement_uses_visible_variables (Γ : List Var) (fuel : Nat) (ctx : Ctx) (hc : VarsIn Γ ctx) (s s' : PSt) (st : Stmt)
+    (h : evalStatement fuel ctx s = .ok st s') : PT.useS Γ st = true :=
+  (useSIH_all useIH_all fuel).statement Γ ctx hc s st s' h
+
 /-! non-vacuity and the excluded shape -/
 private def fsOf (src : String) : FileSys := { files := [("/v/main.tsh", src.toUTF8.toList, "h0000000")], exeDir := "/x" }
 private def accepted (src : String) : Option Program :=
@@ -140,5 +228,37 @@ private def accepted (src : String) : Option Program :=
 -- the known finding: `break` in a switch outside of a loop is accepted; it is placed only in the parser's sense
 #guard ((accepted "switch 1 {\ncase 1:\n\tbreak\n}\n").map
   fun p => (placedStmts { brkAnywhere := true } p, breaks_in_loops p, placedStmts {} p)) == some (true, false, false)
+
+-- variables: the predicate holds of an accepted program with globals, a function with parameters and locals, nested
+-- blocks, a three-part loop, a range loop with index and element, a switch, copy and element assignment ...
+private def scopeSrc : String :=
+  "var g = 1\nxs := []int{1, 2}\nfunc f(a int) int {\n\tb := a + g\n\tif b > 1 {\n\t\tc := b\n\t\tb = c + 1\n\t}\n\treturn b\n}\n" ++
+  "for i := 0; i < 2; i++ {\n\tg += i\n}\nfor k, v := range xs {\n\txs[k] = v + g\n}\nfor j := range \"ab\" {\n\tg = g + j\n}\n" ++
+  "ys := []int{0, 0}\nn := copy(ys, xs)\nswitch n {\ncase 2:\n\tz := f(n)\n\tprint(z)\n}\ng++\n"
+#guard ((accepted scopeSrc).map (PT.useSs [])) == some true
+-- ... and it is a real constraint: the same predicate fails on ASTs that use a variable outside its scope
+private def vI (n : String) (g : Bool) : Var := ⟨n, ⟨.int, false⟩, g, false⟩
+-- use before the definition
+#guard PT.useSs [] [.print [.varEval (vI "a" true)], .varDef [vI "a" true] [.intLit 1]] == false
+-- use after the end of the block
+#guard PT.useSs [] [.ifS (.boolLit true) [.varDef [vI "a" false] [.intLit 1]] [] [], .print [.varEval (vI "a" false)]] == false
+-- a function body does not see the caller's locals (only globals and parameters)
+#guard PT.useSs [] [.ifS (.boolLit true) [.varDef [vI "l" false] [.intLit 1],
+    .funcDef "f" false [] [] [.print [.varEval (vI "l" false)]]] [] []] == false
+#guard PT.useSs [] [.varDef [vI "g" true] [.intLit 1], .funcDef "f" false [] [vI "p" false] [.print [.varEval (vI "g" true), .varEval (vI "p" false)]]] == true
+-- a variable used with another type than it was defined with
+#guard PT.useSs [] [.varDef [vI "a" true] [.intLit 1], .print [.varEval ⟨"a", ⟨.string, false⟩, true, false⟩]] == false
+-- assignment, element assignment, copy into, counting: the target must be visible too
+#guard PT.useSs [] [.assign [vI "a" true] [.intLit 1]] == false
+#guard PT.useSs [] [.sliceAssign ⟨"s", ⟨.int, true⟩, true, false⟩ (.intLit 0) (.intLit 1)] == false
+#guard PT.useSs [] [.expr (.copy ⟨"s", ⟨.int, true⟩, true, false⟩ (.sliceNew .int []))] == false
+-- a loop variable ends with the loop
+#guard PT.useSs [] [.forS (some (.varDef [vI "i" false] [.intLit 0])) (.boolLit true) none [], .print [.varEval (vI "i" false)]] == false
+-- the model rejects such programs
+#guard (accepted "print(a)\na := 1\n").isNone
+#guard (accepted "if true {\n\ta := 1\n}\nprint(a)\n").isNone
+#guard (accepted "func f() {\n\tprint(l)\n}\nl := 1\nf()\n").isNone
+#guard (accepted "for i := 0; i < 1; i++ {\n}\nprint(i)\n").isNone
+#guard (accepted "for i, v := range \"ab\" {\n}\nprint(v)\n").isNone
 
 end Tsh.C07
